@@ -58,6 +58,10 @@ fn eval(id: &str, fm: &FragMovie, rep: &mut Report, args: &Args) {
 /// box (mfhd, traf, tfhd, tfdt, trun) the 64-bit size header; nothing else changes.
 fn eval_x(id: &str, fm: &FragMovie, rep: &mut Report, args: &Args, large: Option<u64>) {
     rep.begin(id);
+    allow_hybrid(true);
+    if fm.styp && fm.with_mehd {
+        rep.add("hybrid_movies_with_samples_in_the_movie_box", 1);
+    }
     let b = build_fragmented_x(fm, &|_| {}, &|bx| {
         if let Some(s) = large {
             if &bx.typ == b"moof" {
@@ -65,6 +69,7 @@ fn eval_x(id: &str, fm: &FragMovie, rep: &mut Report, args: &Args, large: Option
             }
         }
     });
+    allow_hybrid(false);
     if large.is_some() {
         rep.add("movies_with_64bit_headers_inside_moof", 1);
     }
@@ -96,6 +101,35 @@ fn eval_x(id: &str, fm: &FragMovie, rep: &mut Report, args: &Args, large: Option
                 }
                 Ok(Err(e)) => fails.push(("segment:open_error".into(), json!({"err": e.to_string()}))),
                 Err(p) => fails.push(("segment:reader_panic".into(), json!({"site": p.site(), "msg": p.msg}))),
+            }
+            // (c) the same media segment as a byte range of a larger resource (init segment and
+            // media segment in one file, the caller seeks to the segment and passes its end):
+            // everything that is relative to the movie fragment moves by the segment's position.
+            // Explicit base data offsets are absolute by definition, so movies that use them
+            // are left out of this mode.
+            let no_explicit = fm.fragments.iter().all(|f| f.runs.iter().all(|r| r.base != BaseMode::Explicit));
+            if no_explicit {
+                let p = b.init.len() as u64;
+                let mut both = b.init.clone();
+                both.extend_from_slice(&b.segment);
+                let end = both.len() as u64;
+                let data = Rc::new(both);
+                let shifted: Vec<Vec<Expect>> = b.expect_segment.iter().map(|v| v.iter().map(|e| Expect { offset: e.offset + p, size: e.size, fill: e.fill, start: e.start, delta: e.delta, cts: e.cts, sync: e.sync }).collect()).collect();
+                match panicmon::catch(|| {
+                    use std::io::Seek;
+                    let mut r = MonReader::plain(data.clone());
+                    let _ = r.seek(std::io::SeekFrom::Start(p));
+                    base.read_fragment_header(r, end)
+                }) {
+                    Ok(Ok(mut mp4)) => {
+                        for (r, d) in check_samples(&mut mp4, &ids, &shifted, &opts) {
+                            fails.push((format!("segment_at_offset:{}", r), d));
+                        }
+                    }
+                    Ok(Err(e)) => fails.push(("segment_at_offset:open_error".into(), json!({"err": e.to_string(), "position": p}))),
+                    Err(pn) => fails.push(("segment_at_offset:reader_panic".into(), json!({"site": pn.site(), "msg": pn.msg}))),
+                }
+                rep.add("segments_also_opened_at_a_non_zero_position", 1);
             }
             let _: &Mp4Reader<MonReader> = &base;
         }
